@@ -735,8 +735,8 @@ def _eval_view(cases):
 
 KVIEW_KERNELS = ['erode', 'erode_bool', 'dilate', 'dilate_bool', 'locmax', 'locmin', 'convolve', 'rank', 'mean', 'tm',
                  'borders', 'hitmiss', 'bbox', 'com', 'cwatershed', 'line',
-                 'regmax', 'regmin', 'close_holes', 'majority']      # round 4: `kind=kviewA` (Model/C08ViewsA.lean)
-KVIEW_A = ('regmax', 'regmin', 'close_holes', 'majority')
+                 'regmax', 'regmin', 'close_holes', 'majority', 'cooccurence']      # round 4: `kind=kviewA` (Model/C08ViewsA.lean)
+KVIEW_A = ('regmax', 'regmin', 'close_holes', 'majority', 'cooccurence')
 MODES = ['nearest', 'wrap', 'reflect', 'mirror', 'constant', 'ignore']
 
 
@@ -760,7 +760,7 @@ def _kview_setup(c):
     if kernel in ('close_holes', 'majority') and nd != 2:      # the wrappers admit matrices only
         kernel = r.choice(['regmax', 'regmin'])
     isbool = kernel in ('erode_bool', 'dilate_bool', 'hitmiss', 'close_holes', 'majority')
-    hi = 1 if isbool else (3 if kernel in ('borders', 'cwatershed') else 9)
+    hi = 1 if isbool else (3 if kernel in ('borders', 'cwatershed', 'cooccurence') else 9)
     mem = [r.randint(0, hi) for _ in range(c['buf'])]
     bshape = [r.choice([1, 2, 3, 3]) for _ in range(nd)]
     nb = int(np.prod(bshape))
@@ -776,6 +776,9 @@ def _kview_setup(c):
         pass    # the wrapper removes the centre itself; the model receives the centre-less element (below)
     if kernel in ('regmax', 'regmin'):
         mem = [r.randint(0, 2) for _ in range(c['buf'])]       # few levels: plateaus, ties between plateaus
+    if kernel == 'cooccurence':                                 # the wrapper's one-hot direction array (any position here)
+        b = [0] * nb
+        b[r.randrange(nb)] = 1
     mode = r.randrange(6)
     if kernel == 'rank' and mode == 5:
         mode = 2
@@ -797,7 +800,7 @@ def _kview_line(c, k):
     dt = 'b1' if k['isbool'] and kern in ('erode', 'dilate') else ('u8' if kern in ('erode', 'dilate') else 'i64')
     carr = 1 if list(c['strides']) == _cstr(shape) else 0
     kind = 'kviewA' if kern in KVIEW_A else 'kview'
-    line = (f"c08 kind={kind} kernel={kern} n={k.get('n', 3)} dt={dt} mode={k['mode']} rank={k['rank']} axis={k['axis']} p={gen.enc_arr(k['p'])} "
+    line = (f"c08 kind={kind} kernel={kern} n={k.get('n', 3)} mm=4 dt={dt} mode={k['mode']} rank={k['rank']} axis={k['axis']} p={gen.enc_arr(k['p'])} "
             f"amem={gen.enc_arr(k['mem'])} abase={c['base']} ashape={gen.enc_shape(shape)} astrides={gen.enc_arr(list(c['strides']))} "
             f"acarray={carr} bmem={gen.enc_arr(b)} bbase=0 bshape={gen.enc_shape(k['bshape'])} "
             f"bstrides={gen.enc_arr(_cstr(k['bshape']))} bcarray=1")
@@ -869,6 +872,13 @@ def _kview_real(c, k):
         return dict(out=flat(mahotas.close_holes(v, b)))
     if kern == 'majority':
         return dict(out=flat(mahotas.majority_filter(v, k['n'])))
+    if kern == 'cooccurence':
+        # the native entry point itself (the wrapper builds only centred 3^nd one-hot arrays): values in [0, 4), a zeroed
+        # 4 x 4 int32 result, the direction array in any layout
+        from mahotas.features import _texture
+        res = np.zeros((4, 4), np.int32)
+        _texture.cooccurence(v, res, b, 0)
+        return dict(out=flat(res))
     if kern == 'line':
         ln = np.moveaxis(np.asarray(v), k['axis'], -1)[tuple(x for i, x in enumerate(k['p']) if i != k['axis'])]
         return dict(out=flat(ln))
